@@ -209,9 +209,21 @@ func Now() time.Time {
 	if clockN < len(rf.Clock) {
 		t := time.Unix(0, rf.Clock[clockN])
 		clockN++
+		lastNow = t.UnixNano()
 		return t
 	}
-	return time.Now()
+	t := time.Now()
+	lastNow = t.UnixNano()
+	return t
+}
+
+var lastNow int64
+
+// LastNow is the most recent reading of the model clock handed to the code under test.
+func LastNow() int64 {
+	mu.Lock()
+	defer mu.Unlock()
+	return lastNow
 }
 
 func Blocked() int { return 0 }
